@@ -158,8 +158,16 @@ class Gen:
     def statement(self):
         rng = self.rng
         depth = rng.choice([0, 1, 1, 2, 2, 3])
-        k = rng.randrange(24)
+        k = rng.randrange(26)
         cols = ['a', 'b', 'c', 'd']
+        if k in (24, 25):  # a sub-select (named columns or star) joined with a model
+            tl = rng.choice(['*', 'a, b', 'a, b as bb, c', 'a, x'])
+            ch = [('m', 'select s.a, m.p from (select %s from int.t1 where ' % tl), ('m', self.cond(cols, min(depth, 1))),
+                  ('m', ') as s join mindsdb.pred as m'), ('o', ' where s.a > ' + rng.choice([MARK, '1'])),
+                  ]
+            if ch[-1][1].startswith(' where') and rng.random() < 0.5:
+                ch.append(('o', ' and m.k = ' + rng.choice([MARK, '3'])))
+            return ch, 'model'
         if k == 16:  # three-way join, placeholders in ON conditions and in a joined sub-select
             third = rng.choice(['(select id, k from int.t3 where %s) as t3' % self.cond(['k', 'id'], min(depth, 1)), 'int.t3 as t3'])
             ch = [('m', 'select '), ('m', self.expr(['t1.a', 't2.b'], min(depth, 1))), ('m', ' from int.t1 as t1 join int2.t2 as t2 on t1.id = t2.id'),
